@@ -27,7 +27,11 @@ func init() {
 			"limit action, MIME match, in-memory limit; request body of size {0,L-1,L,L+1,2L} delivered with known / unknown / unknown-bytewise / Len()-aware length; " +
 			"handler program = every sequence of operations up to the bound over the operation alphabet; response writer = httptest.ResponseRecorder or the strict net/http-rule writer). " +
 			"Every scenario is served in-process through txhttp.WrapHandler and, for the pass-through oracle, once more without the middleware on the same kind of writer. " +
-			"Two sub-spaces: 'resp' (all handler programs x response-side configurations x rules in phase 3/4) and 'req' (all bodies x request-side configurations x rules in every phase x programs over the read/write alphabet). " +
+			"Two sub-spaces: 'resp' (every program of <=3 (quick) / <=5 (thorough) operations over {Header.Add, WriteHeader(200/201/204/304/404/103), Write(1 B), Write(3 B), Write(limit B), Flush, ReadFrom(4 B), read-body-and-echo-length} " +
+			"x handler Content-Type {none, text/plain} x {response body access off, on x limit action {Reject, ProcessPartial} x MIME list {matching, not matching}} x rule {none, phase 3/4 x deny/redirect/drop}, request body 3 B; " +
+			"the combination 'no Content-Type + non-matching MIME list' is left out as doubly unbuffered) and " +
+			"'req' (every program of <=2 / <=3 operations over {ReadAll, read with 1 B buffer, read with 3 B buffer, Write(3 B), WriteHeader(404), Flush} x 20 bodies " +
+			"x {request body access off, on x {Reject, ProcessPartial} x in-memory limit {default, limit/2 (spills to a temp file)}} x response buffering {off, on} x rule {none, phase 1-4 x deny/redirect/drop}). " +
 			"distinct_nontrivial = distinct scenarios in which the middleware interrupted or the handler produced output / read the body",
 		Assumptions: []string{
 			"no sockets: the client side is what the ResponseWriter received; the strict writer follows net/http server.go (go1.25) header-snapshot, 1xx, body-not-allowed, Content-Length and Flush rules; Content-Type sniffing, Date, chunking, trailers, HEAD, Hijack and HTTP/2 push are not modelled",
@@ -258,7 +262,7 @@ func classifyRead(sc Scenario, got, want string) string {
 
 func classifyDiff(sc Scenario, base, mw Obs) string {
 	sameInfos := strings.Join(mw.Client.Infos, "|") == strings.Join(base.Client.Infos, "|")
-	if len(base.Client.Infos) > 0 {
+	if len(base.Client.Infos) > 0 && (mw.Client.Status != base.Client.Status || !sameInfos) {
 		// The handler sent a 1xx informational response before its final header
 		// (strict writer only: the recorder takes 1xx as final with and without the
 		// middleware). The interceptor's state machine takes it for the final
